@@ -67,15 +67,23 @@ def run(ctx):
     npaths = 0
     for pi in pathq.all_paths(f):
         npaths += 1
-        cnt = 0; old_atom = None
+        cnt = 0; old_atom = None; upd = None
         for e, v in pi.events('store'):
             if e.lhs.k == 'mem' and e.lhs.n == 'completed_taskpools':
-                cnt += 1
-                if e.e is not None and e.e.k == 'un':
-                    old_atom = e.e.subst(v)
+                cnt += 1; upd = e
+                ctr = e.lhs.subst(v)
+                if e.op == '++':
+                    old_atom = ctr            # value before the increment = the counter as read here
+                elif e.op == '=' and e.rhs is not None and aff.norm(e.rhs.subst(v)) == aff.norm(ctr) + aff.Poly.const(1):
+                    old_atom = ctr
+                elif e.op == '+=' and e.rhs is not None and e.rhs.cv == 1:
+                    old_atom = ctr
+        late = [e for e, v in pi.events('load') if e.e.k == 'mem' and e.e.n == 'completed_taskpools' and upd is not None and pi.index(e) > pi.index(upd)]
+        if late:
+            rb.bad('cb:counter-reread', late[0].loc, 'completed counter re-read after it was advanced (index computed from the new value)')
         rev, rexp = pi.ret()
-        rb.expect(cnt == 1 and old_atom is not None and old_atom.op == 'post++', 'cb:counter', rev.loc if rev else f.where(),
-                  'completed counter must be post-incremented exactly once per callback (found %d updates)' % cnt, note='completed_taskpools++ once per callback')
+        rb.expect(cnt == 1 and old_atom is not None, 'cb:counter', rev.loc if rev else f.where(),
+                  'completed counter must be advanced by exactly one, once per callback (found %d updates)' % cnt, note='completed_taskpools advanced by 1 once per callback')
         adds = pi.calls(ADD)
         decs = [(e, v) for e, v in pi.calls() if e.fn is None and e.callee is not None and e.callee.k == 'mem' and e.callee.n == 'taskpool_addto_runtime_actions']
         okdec = len(decs) == 1 and decs[0][0].args[1].cv == -1
@@ -89,7 +97,14 @@ def run(ctx):
         if adds:
             e, v = adds[0]
             arg = e.args[1].subst(v)
-            okidx = old_atom is not None and arg.k == 'idx' and arg.ch[0].s.endswith('taskpool_array') and aff.norm(arg.ch[1]) == aff.norm(old_atom) + aff.Poly.const(1)
+            okidx = old_atom is not None and arg.k == 'idx' and arg.ch[0].s.endswith('taskpool_array') and \
+                (aff.norm(arg.ch[1]) == aff.norm(old_atom) + aff.Poly.const(1) or
+                 (arg.ch[1].k == 'bin' and arg.ch[1].op == '+' and arg.ch[1].ch[1].cv == 1 and arg.ch[1].ch[0].k == 'un' and arg.ch[1].ch[0].op == 'post++' and arg.ch[1].ch[0].ch[0].s == old_atom.s))
+            # the counter must be advanced BEFORE the next member is handed to the scheduler: once it is
+            # enqueued its own completion callback may run concurrently and must already see the new index
+            okorder = upd is not None and pi.index(upd) < pi.index(e)
+            rb.expect(okorder, 'cb:counter-after-enqueue', upd.loc if upd is not None else e.loc,
+                      'completed counter advanced after the next member was enqueued (its callback may run first and re-enable the same member)', note='counter advanced before enqueueing the next member')
             rb.expect(len(adds) == 1 and okidx and pos is True, 'cb:next', e.loc,
                       'callback enqueues %s; must be exactly member (counter before increment)+1 and only when remaining > 0 (assumed: %s)' % (arg.s, pos),
                       note='enqueue taskpool_array[old+1] iff remaining > 0')
